@@ -340,6 +340,7 @@ func (e *schedEngine) Exec(op *Op) string {
 			n, _ := strconv.Atoi(s)
 			sched = append(sched, n)
 		}
+		fl0 := e.flParts()
 		verifhook.Set(e.hook)
 		e.locks = op.Arg("locks") == "1"
 		verifhook.SetLock(e.lockHook)
@@ -526,7 +527,7 @@ func (e *schedEngine) Exec(op *Op) string {
 		ev := strings.Join(e.events, ",")
 		e.events = nil
 		e.mu.Unlock()
-		return fmt.Sprintf("steps=%d stuck=%s events=%s", steps, strings.Join(stuck, ";"), ev)
+		return fmt.Sprintf("steps=%d stuck=%s fl0=%s fl1=%s events=%s", steps, strings.Join(stuck, ";"), fl0, e.flParts(), ev)
 	case "sfinal":
 		// quiescent read-back after the schedule (hooks off): flush, then read keys
 		verifhook.Set(nil)
@@ -559,6 +560,22 @@ func (e *schedEngine) Exec(op *Op) string {
 		return res
 	}
 	return "bad-op"
+}
+
+// flParts: number of entries in the freelist pool, the freelist file and the hand-over file (-1: no such file), at a quiescent point
+func (e *schedEngine) flParts() string {
+	if e.st == nil {
+		return "na"
+	}
+	ip := filepath.Join(e.dir, "storethehash.index")
+	cnt := func(name string) int {
+		fi, err := os.Stat(name)
+		if err != nil {
+			return -1
+		}
+		return int(fi.Size() / 12)
+	}
+	return fmt.Sprintf("%d:%d:%d", len(e.st.VerifFreeList().VerifPool()), cnt(ip+".free"), cnt(ip+".free.gc"))
 }
 
 // acct lists, after quiescence: the locations named by live index entries (cur), the recorded locations (freelist
